@@ -455,6 +455,9 @@ func (fv *FuncVC) canInline(fr *Frame, callee *ssa.Function, con *Contract) bool
 	if con != nil && con.Opaque {
 		return false
 	}
+	if p := pkgOf(callee); fv.sweepMode && (p == nil || !isModulePkg(p)) {
+		return false // sweep: panics inside dependencies (within their assumed preconditions) are not considered (A7)
+	}
 	if p := pkgOf(callee); p == nil || !(isModulePkg(p) || strings.HasPrefix(p.Path(), "github.com/nyaruka/gocommon")) || strings.Contains(p.Path(), "/antlr/gen/") {
 		return false // dependencies and the ANTLR-generated parsers are never inlined
 	}
